@@ -508,3 +508,54 @@ func init() {
 		}
 	})
 }
+
+func init() {
+	// a generated file that is also a declared SOURCE of another target: deleted, it must come back (the presence of a
+	// declared output is the generator's to check, whoever else watches the file)
+	engScenarios = append(engScenarios, func(r *engRun) {
+		s := r.mkSource("")
+		gen := r.mkTarget("", nil, []int{s}, 2, false, 0)
+		gs := 1000 + len(r.p.Sources)
+		r.p.Sources[gs] = &engSource{ID: gs, Path: gen.Gens[0]}
+		use := r.mkTarget("", nil, []int{gs}, 1, false, 4)
+		top := r.mkTarget("", []int{use.ID}, nil, 1, false, 0)
+		r.emitProj("scenario: a generated file that is a declared source of another target")
+		r.build(top.ID, "build", nil, "", "scenario")
+		for _, what := range []int{0, 1} {
+			os.Remove(filepath.Join(r.root, r.p.Paths[gen.Gens[what]]))
+			r.emitFile(gen.Gens[what], 0, "delete output")
+			o := r.build(top.ID, "build", nil, "", "after the deletion")
+			if o.Kind == "build" && o.OK {
+				r.checkClean(top.ID)
+			}
+			r.build(top.ID, "build", nil, "", "nothing changed")
+		}
+		os.Remove(filepath.Join(r.root, r.p.Paths[gen.Gens[0]]))
+		r.emitFile(gen.Gens[0], 0, "delete output")
+		r.build(use.ID, "dry", nil, "", "preview of the consumer")
+		o := r.build(use.ID, "build", nil, "", "the consumer alone")
+		if o.Kind == "build" && o.OK {
+			r.checkClean(use.ID)
+		}
+	})
+	// a dependency or a source named twice in one declaration
+	engScenarios = append(engScenarios, func(r *engRun) {
+		s := r.mkSource("")
+		a := r.mkTarget("", nil, []int{s, s}, 1, false, 4)
+		b := r.mkTarget("", []int{a.ID, a.ID}, []int{s}, 1, false, 0)
+		top := r.mkTarget("", []int{b.ID, a.ID, b.ID}, nil, 1, false, 4)
+		r.emitProj("scenario: the same dependency / source named twice")
+		r.build(top.ID, "build", nil, "", "scenario")
+		r.build(top.ID, "build", nil, "", "nothing changed")
+		r.editSource(s)
+		o := r.build(top.ID, "build", nil, "", "after an edit")
+		if o.Kind == "build" && o.OK {
+			r.checkClean(top.ID)
+		}
+		r.build(top.ID, "build", nil, "", "nothing changed")
+		top.Deps = []int{b.ID, a.ID}
+		r.emitProj("one of the duplicates removed")
+		r.build(top.ID, "build", nil, "", "scenario")
+		r.build(top.ID, "dry", nil, "", "nothing changed")
+	})
+}
